@@ -2,23 +2,54 @@ package hackpadfs
 
 import "strings"
 
+// stripErrPathPrefix translates the paths of an error returned by a mounted FS for 'mountSubPath'
+// back into the caller's namespace, where the same file is called 'name'.
+//
+// Two directions occur: a Sub FS addresses the inner FS below a base directory ('mountSubPath' is 'base/name'),
+// and a mount addresses the inner FS relative to its mount point ('name' is 'point/mountSubPath').
 func stripErrPathPrefix(err error, name, mountSubPath string) error {
 	if err == nil {
 		return err
 	}
-	prefix := strings.TrimSuffix(mountSubPath, name)
+	translate := func(p string) string { return p }
+	switch {
+	case name == mountSubPath:
+	case name == ".":
+		// Sub FS root: the inner FS sees the base directory itself
+		base := mountSubPath
+		translate = func(p string) string {
+			if p == base {
+				return "."
+			}
+			return strings.TrimPrefix(p, base+"/")
+		}
+	case strings.HasSuffix(mountSubPath, "/"+name):
+		prefix := strings.TrimSuffix(mountSubPath, name)
+		translate = func(p string) string { return strings.TrimPrefix(p, prefix) }
+	case mountSubPath == ".":
+		// the mount point itself: the inner FS sees its own root
+		translate = func(p string) string {
+			if p == "." {
+				return name
+			}
+			return name + "/" + p
+		}
+	case strings.HasSuffix(name, "/"+mountSubPath):
+		prefix := strings.TrimSuffix(name, mountSubPath)
+		translate = func(p string) string { return prefix + p }
+	}
 	switch err := err.(type) {
 	case *PathError:
 		return &PathError{
 			Op:   err.Op,
-			Path: strings.TrimPrefix(err.Path, prefix),
+			Path: translate(err.Path),
 			Err:  err.Err,
 		}
 	case *LinkError:
 		return &LinkError{
 			Op:  err.Op,
-			Old: strings.TrimPrefix(err.Old, prefix),
-			New: strings.TrimPrefix(err.New, prefix),
+			Old: translate(err.Old),
+			New: translate(err.New),
 			Err: err.Err,
 		}
 	default:
